@@ -4,6 +4,7 @@ open BinNat
 open BinNums
 open Bool
 open Datatypes
+open DcViews
 open Json
 open List
 open NodeInd
@@ -253,7 +254,8 @@ let sort_strs l =
 type case_result = { cr_relevant : bool; cr_roundtrip : bool;
                      cr_same_status : bool; cr_same_out : bool;
                      cr_same_diag : bool; cr_model_out : jv;
-                     cr_model_diags : str list; cr_extra : (str * str) list }
+                     cr_model_diags : str list; cr_extra : (str * str) list;
+                     cr_views : jv }
 
 (** val b2s : bool -> str **)
 
@@ -929,7 +931,137 @@ let run_case c =
               ((Ascii (false, true, false, false, true, true, true, false)),
               (String ((Ascii (false, true, false, false, true, true, true,
               false)), EmptyString))))))))))))))),
-          (b2s (opt_corr c))) :: (if real_ok then extras c mo else [])) }
+          (b2s (opt_corr c))) :: (if real_ok then extras c mo else []));
+          cr_views =
+          (if real_ok
+           then JObj
+                  (((s_ (String ((Ascii (false, false, true, false, false,
+                      true, true, false)), (String ((Ascii (true, true,
+                      false, false, false, true, true, false)), (String
+                      ((Ascii (true, true, true, true, true, false, true,
+                      false)), (String ((Ascii (false, true, false, false,
+                      true, true, true, false)), (String ((Ascii (true,
+                      false, true, false, false, true, true, false)), (String
+                      ((Ascii (true, false, false, false, false, true, true,
+                      false)), (String ((Ascii (false, false, true, true,
+                      false, true, true, false)), EmptyString))))))))))))))),
+                  (view_dc
+                    (dec
+                      (jfield_d (String ((Ascii (true, true, true, true,
+                        false, true, true, false)), (String ((Ascii (true,
+                        false, true, false, true, true, true, false)),
+                        (String ((Ascii (false, false, true, false, true,
+                        true, true, false)), (String ((Ascii (false, false,
+                        false, false, true, true, true, false)), (String
+                        ((Ascii (true, false, true, false, true, true, true,
+                        false)), (String ((Ascii (false, false, true, false,
+                        true, true, true, false)), EmptyString)))))))))))) c)))) :: ((
+                  (s_ (String ((Ascii (false, false, true, false, false,
+                    true, true, false)), (String ((Ascii (true, true, false,
+                    false, false, true, true, false)), (String ((Ascii (true,
+                    true, true, true, true, false, true, false)), (String
+                    ((Ascii (true, false, false, true, false, true, true,
+                    false)), (String ((Ascii (false, true, true, true, false,
+                    true, true, false)), (String ((Ascii (false, false,
+                    false, false, true, true, true, false)), (String ((Ascii
+                    (true, false, true, false, true, true, true, false)),
+                    (String ((Ascii (false, false, true, false, true, true,
+                    true, false)), EmptyString))))))))))))))))),
+                  (view_dc
+                    (dec
+                      (jfield_d (String ((Ascii (true, false, false, true,
+                        false, true, true, false)), (String ((Ascii (false,
+                        true, true, true, false, true, true, false)), (String
+                        ((Ascii (false, false, false, false, true, true,
+                        true, false)), (String ((Ascii (true, false, true,
+                        false, true, true, true, false)), (String ((Ascii
+                        (false, false, true, false, true, true, true,
+                        false)), EmptyString)))))))))) c)))) :: (((s_ (String
+                                                                    ((Ascii
+                                                                    (false,
+                                                                    false,
+                                                                    true,
+                                                                    false,
+                                                                    false,
+                                                                    true,
+                                                                    true,
+                                                                    false)),
+                                                                    (String
+                                                                    ((Ascii
+                                                                    (true,
+                                                                    true,
+                                                                    false,
+                                                                    false,
+                                                                    false,
+                                                                    true,
+                                                                    true,
+                                                                    false)),
+                                                                    (String
+                                                                    ((Ascii
+                                                                    (true,
+                                                                    true,
+                                                                    true,
+                                                                    true,
+                                                                    true,
+                                                                    false,
+                                                                    true,
+                                                                    false)),
+                                                                    (String
+                                                                    ((Ascii
+                                                                    (true,
+                                                                    true,
+                                                                    false,
+                                                                    false,
+                                                                    true,
+                                                                    true,
+                                                                    true,
+                                                                    false)),
+                                                                    (String
+                                                                    ((Ascii
+                                                                    (true,
+                                                                    false,
+                                                                    false,
+                                                                    false,
+                                                                    false,
+                                                                    true,
+                                                                    true,
+                                                                    false)),
+                                                                    (String
+                                                                    ((Ascii
+                                                                    (true,
+                                                                    false,
+                                                                    true,
+                                                                    true,
+                                                                    false,
+                                                                    true,
+                                                                    true,
+                                                                    false)),
+                                                                    (String
+                                                                    ((Ascii
+                                                                    (true,
+                                                                    false,
+                                                                    true,
+                                                                    false,
+                                                                    false,
+                                                                    true,
+                                                                    true,
+                                                                    false)),
+                                                                    EmptyString))))))))))))))),
+                  (JBool
+                  (jv_eqb
+                    (view_dc
+                      (dec
+                        (jfield_d (String ((Ascii (true, true, true, true,
+                          false, true, true, false)), (String ((Ascii (true,
+                          false, true, false, true, true, true, false)),
+                          (String ((Ascii (false, false, true, false, true,
+                          true, true, false)), (String ((Ascii (false, false,
+                          false, false, true, true, true, false)), (String
+                          ((Ascii (true, false, true, false, true, true,
+                          true, false)), (String ((Ascii (false, false, true,
+                          false, true, true, true, false)),
+                          EmptyString)))))))))))) c))) (view_dc (dec mo))))) :: [])))
+           else JNull) }
      else { cr_relevant = false; cr_roundtrip = true; cr_same_status = true;
             cr_same_out = true; cr_same_diag = true; cr_model_out = JNull;
             cr_model_diags = []; cr_extra =
@@ -942,8 +1074,8 @@ let run_case c =
                 (String ((Ascii (false, true, false, false, true, true, true,
                 false)), (String ((Ascii (false, true, false, false, true,
                 true, true, false)), EmptyString))))))))))))))),
-            (b2s (opt_corr c))) :: []) }
+            (b2s (opt_corr c))) :: []); cr_views = JNull }
    | _ ->
      { cr_relevant = false; cr_roundtrip = true; cr_same_status = true;
        cr_same_out = true; cr_same_diag = true; cr_model_out = JNull;
-       cr_model_diags = []; cr_extra = [] })
+       cr_model_diags = []; cr_extra = []; cr_views = JNull })
